@@ -58,6 +58,8 @@ namespace via
 
           // Strip the BASIC identifier from the string
           basic_pos += 6;
+          if (basic_pos > authorization.size())
+            return false;
           authorization = authorization.substr(basic_pos);
 
           // Decode the authorization value from Base 64
